@@ -100,3 +100,30 @@ Theorem generated_formulas_total_jcd :
   forall m t q, is_jcd m = true -> env_t t = true ->
   formulas_ok {| fm := m; ft := PFloat t; fq := q |} size_bound.
 Proof. exact formulas_ok_jcd. Qed.
+
+(* ==== the property stated DIRECTLY ABOUT THE CODE: the function regenerated from the Python source on this
+   run (Gen/WrapperGen.v, Gen/FilterWrapperGen.v, Gen/MatcherGen.v), applied to any well-formed frames,
+   returns a frame with header header_spec whose rows, read at key level (kview: left key, right key,
+   score), satisfy complete_spec /\ sound_spec /\ missing_spec /\ empty_spec (Spec/JoinSpec.v, MetaSpec.v)
+   -- composition of `generated code refines api_join` with `api_join satisfies the specs` *)
+From SSJ Require Import CodeLevelBase CodeLevelJoins CodeLevelJoins2 CodeLevelFilters CodeLevelMatcher CodeLevelTight.
+Theorem C09_code_jaccard :
+  ltac:(let t := type of C01_C02_code_jaccard_tight in exact t).
+Proof. exact C01_C02_code_jaccard_tight. Qed.
+Print Assumptions C09_code_jaccard.
+Theorem C09_code_cosine :
+  ltac:(let t := type of C01_C02_code_cosine_tight in exact t).
+Proof. exact C01_C02_code_cosine_tight. Qed.
+Print Assumptions C09_code_cosine.
+Theorem C09_code_dice :
+  ltac:(let t := type of C01_C02_code_dice_tight in exact t).
+Proof. exact C01_C02_code_dice_tight. Qed.
+Print Assumptions C09_code_dice.
+Theorem C09_code_overlap_coefficient :
+  ltac:(let t := type of C01_C02_code_overlap_coefficient_tight in exact t).
+Proof. exact C01_C02_code_overlap_coefficient_tight. Qed.
+Print Assumptions C09_code_overlap_coefficient.
+Theorem C09_code_filter_tables :
+  ltac:(let t := type of C04_code_filter_tables_jcd in exact t).
+Proof. exact C04_code_filter_tables_jcd. Qed.
+Print Assumptions C09_code_filter_tables.
